@@ -32,6 +32,9 @@ def run(ctx):
   ctx.borrow(c11.rule_formula, "R-C10-ARITH", lambda r: r.where.endswith(("BatchAddX", "BatchAddSubtractX")))
   rule_lookup(ctx)
   ctx.expect("R-C10-LOOKUP", 2, "BatchDL and BatchDLOfDifferences")
+  from . import template as _T
+  _T.rule_all_curves(ctx, "R-C10-CURVES", lambda w_: w_.startswith(("ec_single_checks:", "ec_aggregate_checks:")))
+  ctx.expect("R-C10-CURVES", 2, "the two per-curve EC searches")
   ctx.expect("R-C10-ARITH", 5, "dispatch and formulas of BatchAddX / BatchAddSubtractX")
   ctx.expect("R-C10-COVER", 4, "candidates, step, adjacency, reach")
   ctx.expect("R-C10-TABLE", 4, "table coverage + point sequence")
